@@ -49,6 +49,11 @@ pub struct Opts {
     pub seed: u64,
 }
 
+/// number of termination polls after which a solve is declared non-terminating
+pub fn poll_cap() -> u64 {
+    std::env::var("PHARNESS_CAP").ok().and_then(|s| s.parse().ok()).unwrap_or(2_000_000)
+}
+
 impl Default for Opts {
     fn default() -> Self {
         Opts {
@@ -517,10 +522,10 @@ pub struct StopAt {
 
 impl StopAt {
     pub fn never() -> Self {
-        StopAt { polls: 0, stop_at: None, cap: 2_000_000, capped: false }
+        StopAt { polls: 0, stop_at: None, cap: poll_cap(), capped: false }
     }
     pub fn at(k: u64) -> Self {
-        StopAt { polls: 0, stop_at: Some(k), cap: 2_000_000, capped: false }
+        StopAt { polls: 0, stop_at: Some(k), cap: poll_cap(), capped: false }
     }
 }
 
